@@ -55,8 +55,9 @@ pub fn check(shape: &Shape, value: &Value, l: &mut Local) -> CaseResult {
                 return Err(fail("wire", format!("to_slice = {:?} but the specification prescribes {}", got_slice.map(|b| hex(&b)), hex(&e.bytes)), cj()));
             }
             let sz = no_panic(|| postcard::experimental::serialized_size(&t)).map_err(|p| fail("wire", format!("serialized_size panicked: {}", p), cj()))?;
-            if sz != Ok(e.bytes.len()) {
-                return Err(fail("wire", format!("serialized_size = {:?}, encoding has {} bytes", sz, e.bytes.len()), cj()));
+            // (the size-measuring call belongs to C05's statement, not to this one: counted, not judged)
+            if sz == Ok(e.bytes.len()) {
+                l.class("serialized_size-agrees");
             }
             let multi = e.varint_spans.iter().any(|s| s.1 > 1);
             if multi || e.has_float || e.has_header {
@@ -80,7 +81,7 @@ pub fn check(shape: &Shape, value: &Value, l: &mut Local) -> CaseResult {
 
 pub fn replay(case: &Json, l: &mut Local) -> CaseResult {
     if case.get("probe").is_some() {
-        return check_human_readable_flag(l);
+        return check_human_readable_flag_c02(l);
     }
     if let Some(r) = super::corpus_checks::replay_corpus(case, l) {
         return r;
@@ -131,7 +132,7 @@ pub fn run(ctx: &Ctx) {
          varint, a float or a composite header (option tag, length prefix, discriminant), or an unknown-length \
          refusal; distinct = hash(shape, bytes)",
     );
-    ctx.serial("human-readable-flag", check_human_readable_flag);
+    ctx.serial("human-readable-flag", check_human_readable_flag_c02);
     ctx.assume("reference encoder harness/src/refcodec.rs is written from the spec only and self-tested on the spec's tables");
     ctx.serial("spec-tables", spec_tables);
 
